@@ -48,7 +48,10 @@ type nQuery struct {
 	Test  string `json:"test"`
 	PFs   []nPF  `json:"prop_filters,omitempty"`
 	Limit int64  `json:"limit"` // 0 = none
-	Sel   *nSel  `json:"sel,omitempty"`
+	// LimitBeyond: a limit on the wire that is a positive integer above
+	// 2^63-1 (digits, no leading zeros); Limit is 0 then
+	LimitBeyond string `json:"limit_beyond,omitempty"`
+	Sel         *nSel  `json:"sel,omitempty"`
 }
 
 func defTest(s string) string {
@@ -130,6 +133,8 @@ func wireQuery(q *rfc6352.Query) nQuery {
 	if q.HasLimit {
 		if v, ok := rfc6352.PositiveInt(q.NResults); ok {
 			n.Limit = v
+		} else if rfc6352.IsPositiveInteger(q.NResults) {
+			n.LimitBeyond = strings.TrimLeft(q.NResults, "0")
 		}
 	}
 	for _, pf := range q.PropFilters {
@@ -256,10 +261,26 @@ func (d *differ) selDiff(want, got *nSel) {
 	}
 }
 
+func limStr(q *nQuery) string {
+	switch {
+	case q.LimitBeyond != "":
+		return q.LimitBeyond + " (beyond 2^63-1)"
+	case q.Limit == 0:
+		return "none"
+	}
+	return fmt.Sprint(q.Limit)
+}
+
 func diffQuery(want, got *nQuery) []delta {
 	d := &differ{}
 	d.enumDiff("filter.test", want.Test, got.Test, "anyof")
 	switch {
+	case want.LimitBeyond != got.LimitBeyond:
+		trans := "altered"
+		if want.Limit == 0 && want.LimitBeyond == "" {
+			trans = "invented"
+		}
+		d.add("limit", trans, fmt.Sprintf("want %s got %s", limStr(want), limStr(got)))
 	case want.Limit == got.Limit:
 	case got.Limit == 0:
 		d.add("limit", "dropped", fmt.Sprintf("want %d got none", want.Limit))
